@@ -194,6 +194,55 @@ def sendIssued (netAt : Nat → Net) (owner : Nat → Nat) (active : Nat → Nat
   if (netAt issue g).len ≤ 1 then forwardT netAt owner active sender fuel g true sendTime (some g)
   else .sendPanic
 
+/-! ### the header fields a message carries (it may have been received and sent on before) -/
+
+/-- `sender_module_id`, `receiver_module_id`, `last_gate` of `message::Header` -/
+structure Hdr where
+  sender : Nat
+  receiver : Nat
+  last : Option Nat
+deriving Repr, DecidableEq
+
+inductive Delivery
+  /-- `Module::handle_message` of module `mod` at `time` gets a message with header `hdr` (`seen`:
+      the module is active, the user code runs) -/
+  | handled (mod : Nat) (time : Nat) (hdr : Hdr) (seen : Bool)
+  | dropped (g : Nat) (time : Nat)
+  | outOfFuel
+  | sendPanic
+deriving Repr, DecidableEq
+
+/-- `forwardT` with the header writes made explicit: `handle_with_sink` overwrites `last_gate` on
+    every hop, `HandleMessageEvent::handle` overwrites `receiver_module_id` with the id of the module
+    it hands the message to — unconditionally, whatever the header held. -/
+def forwardH (netAt : Nat → Net) (owner : Nat → Nat) (active : Nat → Nat → Bool) :
+    Nat → Nat → Bool → Nat → Hdr → Delivery
+  | 0, _, _, _, _ => .outOfFuel
+  | fuel + 1, g, came, t, h =>
+    match nextHop (netAt t) g came with
+    | none => .handled (owner g) t { h with receiver := owner g } (active (owner g) t)
+    | some next =>
+      if !active (owner g) t then .dropped g t
+      else forwardH netAt owner active fuel next.peer next.peerSlot (t + next.chan.getD 0)
+        { h with last := some next.peer }
+
+/-- module `sendingModule` sends a message whose header currently is `h` (a fresh message, one built
+    with explicit ids, or one it received earlier): `buf_send_at` overwrites `sender_module_id`,
+    `handle_with_sink` starts with `last_gate = gate`. -/
+def sendH (netAt : Nat → Net) (owner : Nat → Nat) (active : Nat → Nat → Bool) (sendingModule : Nat)
+    (fuel : Nat) (g : Nat) (issue sendTime : Nat) (h : Hdr) : Delivery :=
+  if (netAt issue g).len ≤ 1 then
+    forwardH netAt owner active fuel g true sendTime { h with sender := sendingModule, last := some g }
+  else .sendPanic
+
+/-- the header a fate implies: sender as stamped at send, receiver = the module the message is
+    handed to, last gate as walked -/
+def Fate.toDelivery : Fate → Delivery
+  | .handled m t last seen sender => .handled m t ⟨sender, m, last⟩ seen
+  | .dropped g t => .dropped g t
+  | .outOfFuel => .outOfFuel
+  | .sendPanic => .sendPanic
+
 /-- total delay of the channels on a list of hops -/
 def delaySum (hops : List Conn) : Nat := (hops.map (·.chan.getD 0)).sum
 
